@@ -30,8 +30,8 @@ def shift_pair(rng):
     return dx, dy
 
 
-def run_shift(ctx, binp, items, label):
-    """items: (doc, view, dx, dy)"""
+def run_shift(ctx, binp, items, label, n32_extra=0):
+    """items: (doc, view, dx, dy); n32_extra: additional pixels above 32 levels a stage tolerates (measured noise, see the stage)"""
     payloads = ["-\t%s\t%s\t%d\t%d" % (d.replace('\n', ' ').replace('\t', ' '), v, dx, dy) for d, v, dx, dy in items]
     outs = ctx.rvh_batch(binp, 'c13-shift', payloads, per_item_timeout=30)
     st = dict(cases=0, identical=0, within1=0, noisy=0, skipped=0, with_layers=0, worst=0)
@@ -71,7 +71,7 @@ def run_shift(ctx, binp, items, label):
         if r['n1'] == 0:
             st['within1'] += 1
             continue
-        why = judge(r, crossing=v.startswith('native') and r.get('outside', 0) > 0)
+        why = judge(dict(r, n32=max(0, r['n32'] - n32_extra)), crossing=v.startswith('native') and r.get('outside', 0) > 0)
         if why is None:
             st['noisy'] += 1
             continue
@@ -351,7 +351,10 @@ def run(ctx):
     ctx.log("e2e-C13 edges: %s" % st)
     # stroked top-level text whose layout box leaves the canvas while its stroke stays visible (seeded change C13-17)
     titems = [gen_text_edge_case(rng) for _ in range(120 if quick else 1200)]
-    st = run_shift(ctx, binp, titems, "e2e-C13 text edges")
+    # noise floor (thorough, seed 1, 1200 cases, HEAD 7272c32): 997 bit-identical, 202 within the crossing rule, one case with 8 px > 32
+    # levels (max 64, of 347 painted: thick round-joined glyph outlines crossing the edge at 2x - tiny-skia's clipper); the seed shows
+    # 36 .. 2059 px > 64 levels.  Hence 10 extra pixels above 32 levels are tolerated here; the > 64 budget (2 px) is unchanged.
+    st = run_shift(ctx, binp, titems, "e2e-C13 text edges", n32_extra=10)
     stats['text_edges'] = st
     ctx.log("e2e-C13 text edges: %s" % st)
     if st['cases'] < len(titems) // 2:
